@@ -75,8 +75,11 @@ def in_known_region(body, funcs):
     return found[0] if found else None
 
 
-def run_case(body, funcs, timeout=15.0):
-    script = gen_prog.render_program(funcs, body)
+def run_case(body, funcs, timeout=15.0, keep=False):
+    if keep:
+        script = gen_prog.render_program(funcs, body, probes=gen_prog.PROBE_KEEP, prelude=gen_prog.PRELUDE_KEEP)
+    else:
+        script = gen_prog.render_program(funcs, body)
     # positional parameters are set: `for v in ; do` (empty list) and `for v; do` (positional parameters) must differ
     rb, rr = diffrun.run_both(script, timeout=timeout, args=("pa", "pb"))
     return script, rb, rr
@@ -137,7 +140,8 @@ def ctl_crossings(body, funcs):
 
 
 def judge(run, body, funcs, origin):
-    script, rb, rr = run_case(body, funcs)
+    keep = origin.endswith("+keep")        # status-preserving probes (see gen_prog.PRELUDE_KEEP)
+    script, rb, rr = run_case(body, funcs, keep=keep)
     run.evaluations += 1
     ob, orf = diffrun.observe(rb), diffrun.observe(rr)
     ck = core.crash_kind(rb)
@@ -154,12 +158,12 @@ def judge(run, body, funcs, origin):
     def still(b, f):
         if in_known_region(b, f):
             return False
-        _, r1, r2 = run_case(b, f)
+        _, r1, r2 = run_case(b, f, keep=keep)
         o1, o2 = diffrun.observe(r1), diffrun.observe(r2)
         return o2 != ("timeout",) and (o1 != o2 or core.crash_kind(r1) is not None)
 
     b2, f2 = gen_prog.shrink(body, funcs, still, budget=120)
-    script2, r1, r2 = run_case(b2, f2)
+    script2, r1, r2 = run_case(b2, f2, keep=keep)
     o1, o2 = diffrun.observe(r1), diffrun.observe(r2)
     sig = "C02|%s|%s" % (",".join(features_of(b2, f2)), shape(o1, o2, core.crash_kind(r1)))
     run.violation(sig, {"kind": "program", "origin": origin, "script": script2, "original_script": script,
@@ -204,6 +208,10 @@ def small_programs():
             items = [(["a"], ("seq", [L("x1", 0)]), terms[0]), (["b", "a*"], ("seq", [L("x2", 1)]), terms[1]),
                      (["*"], ("seq", [L("x3", 3)]), terms[2])]
             progs.append((("seq", [("case", w, items)]), {}))
+            # the same with one item emptied: an item without commands ends with status 0, whatever fell through into it
+            for empty in range(3):
+                items2 = [(p, ("seq", []) if k == empty else b, t) for k, (p, b, t) in enumerate(items)]
+                progs.append((("seq", [("case", w, items2)]), {}))
     # loop control: keyword x n x depth x loop kinds, keyword guarded so it fires on iteration 2
     loops = ["for", "while", "until", "cfor"]
     for outer, inner in itertools.product(loops, repeat=2):
@@ -276,12 +284,13 @@ def run(run):
     diffrun.run_canaries(run, prelude=gen_prog.PRELUDE)
 
     small = small_programs()
-    if quick:
+    if scale < 1.0:
         rng = run.rng("small")
         rng.shuffle(small)
-        small = small[: int(500 * scale)]
+        small = small[: int(len(small) * scale)]
     run.count("small_programs", len(small))
     core.pmap(lambda bf: judge(run, bf[0], bf[1], "small"), small)
+    core.pmap(lambda bf: judge(run, bf[0], bf[1], "small+keep"), small)
 
     n = int((1500 if quick else 40000) * scale)
     cases = []
@@ -296,7 +305,7 @@ def run(run):
             run.count("skipped_region:" + reg)
             continue
         cases.append((body, funcs))
-    core.pmap(lambda bf: judge(run, bf[0], bf[1], "random"), cases)
+    core.pmap(lambda ibf: judge(run, ibf[1][0], ibf[1][1], "random+keep" if ibf[0] % 2 else "random"), list(enumerate(cases)))
     run.sample({"script": gen_prog.render_program(cases[0][1], cases[0][0])})
     run.sample({"script": gen_prog.render_program(small[0][1], small[0][0])})
     run.extra["programs"] = run.evaluations
